@@ -319,13 +319,39 @@ class Check:
         print("NOTE property=%s engine=%s: a disagreement of the first run (%s) was not reproduced by two identical reruns; not counted" % (self.pid, name, json.dumps(first)))
         return rep
 
-    def _engine_once(self, name, extra_args=(), timeout=1500, corr_name=None):
-        os.makedirs(self.out, exist_ok=True)
+    def _run_zzv(self, name, extra_args, timeout):
         for f in glob.glob(os.path.join(self.out, "cases_%s_*" % name)) + glob.glob(os.path.join(self.out, "%s.json" % name)):
             os.remove(f)
+        return sh([ZZV, name, "-out", self.out, "-seed", str(self.seed), "-tier", self.tier, "-repo", REPO] + list(extra_args), timeout=(timeout * 2 if self.tier == "thorough" else timeout))
+
+    def prefetch(self, engines, timeout=1500):
+        """Start the first run of every engine of the property at once (they are separate processes
+        writing disjoint files and spend most of their time waiting for the real code to settle);
+        engine() then picks the result up. Confirmation reruns are run one at a time."""
+        import threading
+        os.makedirs(self.out, exist_ok=True)
         for f in glob.glob(os.path.join(self.out, "*.vo")) + glob.glob(os.path.join(self.out, "*.glob")) + glob.glob(os.path.join(self.out, ".*.aux")):
             os.remove(f)
-        rc, out = sh([ZZV, name, "-out", self.out, "-seed", str(self.seed), "-tier", self.tier, "-repo", REPO] + list(extra_args), timeout=(timeout * 2 if self.tier == "thorough" else timeout))
+        self._pre = {}
+        if os.environ.get("VERIF_SEQUENTIAL_ENGINES") or len(engines) < 2:
+            return
+        def work(name, args):
+            self._pre[name] = self._run_zzv(name, args, timeout)
+        ths = [threading.Thread(target=work, args=(n, a)) for n, a in engines]
+        for t in ths:
+            t.start()
+        for t in ths:
+            t.join()
+
+    def _engine_once(self, name, extra_args=(), timeout=1500, corr_name=None):
+        os.makedirs(self.out, exist_ok=True)
+        pre = getattr(self, "_pre", {}).pop(name, None)
+        if pre is not None:
+            rc, out = pre
+        else:
+            for f in glob.glob(os.path.join(self.out, "*.vo")) + glob.glob(os.path.join(self.out, "*.glob")) + glob.glob(os.path.join(self.out, ".*.aux")):
+                os.remove(f)
+            rc, out = self._run_zzv(name, extra_args, timeout)
         label = corr_name or ("K: correspondence %s (model vs implementation on the same inputs)" % name)
         if rc != 0:
             self.oblige(label, False, out[-1500:])
